@@ -28,15 +28,29 @@ def get_uf(d, order):
 
 
 class Cfg:
-    def __init__(self, layout="dense", calib="none", strategy="filter", lin="ts0", q=1, d=1, order=1, relin=False):
+    def __init__(self, layout="dense", calib="none", strategy="filter", lin="ts0", q=1, d=1, order=1, relin=False, pytree=False):
         self.layout, self.calib, self.strategy, self.lin = layout, calib, strategy, lin
         self.q, self.d, self.order, self.relin = q, d, order, relin
+        self.pytree = pytree  # state is the pytree {"a": (1,), "b": (d-1,)} instead of an array of shape (d,)
         self.L = LAYOUT[layout]
 
     @property
     def name(self):
         s = f"{self.layout},{self.calib},{self.strategy},{self.lin},q={self.q},d={self.d},order={self.order}"
-        return s + (",relin" if self.relin else "")
+        return s + (",relin" if self.relin else "") + (",pytree" if getattr(self, "pytree", False) else "")
+
+
+def pack(cfg, v):
+    """flat (d,) array -> the state structure of the configuration."""
+    if not getattr(cfg, "pytree", False):
+        return v
+    return {"a": v[:1], "b": v[1:]}
+
+
+def unpack(cfg, x):
+    if not getattr(cfg, "pytree", False):
+        return x
+    return jnp.concatenate([jnp.reshape(x["a"], (-1,)), jnp.reshape(x["b"], (-1,))])
 
 
 def make_ode(cfg):
@@ -45,9 +59,9 @@ def make_ode(cfg):
     f = get_uf(cfg.d, cfg.order)
     jac = pd.jacobian_materialize()
     if cfg.order == 1:
-        return pd.ode(lambda y, /, *, t: f(y, t), jacobian=jac)
+        return pd.ode(lambda y, /, *, t: pack(cfg, f(unpack(cfg, y), t)), jacobian=jac)
     if cfg.order == 2:
-        return pd.ode_order_two(lambda y, dy, /, *, t: f(y, dy, t), jacobian=jac)
+        return pd.ode_order_two(lambda y, dy, /, *, t: pack(cfg, f(unpack(cfg, y), unpack(cfg, dy), t)), jacobian=jac)
     raise ValueError
 
 
@@ -72,7 +86,7 @@ def make_state(cfg, rng, solver=None, ssm=None):
     """A generic solver state: every float leaf random (scalings / scales positive)."""
     if solver is None:
         ssm, ode, constraint, strategy, solver = make_solver(cfg)
-    tcoeffs = [jnp.asarray(rng.normal(size=(cfg.d,))) for _ in range(cfg.q + 1)]
+    tcoeffs = [pack(cfg, jnp.asarray(rng.normal(size=(cfg.d,)))) for _ in range(cfg.q + 1)]
     prior = ssm.prior_wiener_integrated(tcoeffs, is_exact=False)
     state = solver.init(t=jnp.asarray(0.3), u=prior, damp=jnp.asarray(0.1))
     state = randomise(state, rng)
